@@ -1127,3 +1127,69 @@ fire("pipeline-add-match-statement-swapped", ["C13"], "R-PI", PL,
                 return (self + other.tail) + other.rest
             case _:
                 return Pipeline(PipelineStep(Evaluatable.ensure(other)), self)""")
+
+# ------------------------------------------------------------------ round-5 strengthening
+TV = "labrea/type_validation.py"
+COL = "labrea/collections.py"
+fire("concat-extends-input-in-place", ["C01", "C13"], "R-VM", FN,
+     "        partial(lambda x, i: itertools.chain(x, i), i=Evaluatable.ensure(iterable)),\n        f\"append({iterable!r})\",",
+     "        partial(_concat_in_place, i=Evaluatable.ensure(iterable)),\n        f\"append({iterable!r})\",",
+     also=[("def append(", "def _concat_in_place(x, i):\n    if isinstance(x, list):\n        x += i\n        return x\n    return itertools.chain(x, i)\n\n\ndef append(")])
+fire("casewhen-when-extends-receiver", ["C05"], "R-VM", CO,
+     "        return CaseWhen(\n            self.dispatch,\n            [*self.cases, (Evaluatable.ensure(condition), Evaluatable.ensure(result))],\n            self.default,\n        )",
+     "        cases = self.cases\n        cases += [(Evaluatable.ensure(condition), Evaluatable.ensure(result))]\n        return CaseWhen(self.dispatch, cases, self.default)")
+silent("casewhen-when-copies-first", ["C05", "C08"], CO,
+       "        return CaseWhen(\n            self.dispatch,\n            [*self.cases, (Evaluatable.ensure(condition), Evaluatable.ensure(result))],\n            self.default,\n        )",
+       "        cases = list(self.cases)\n        cases += [(Evaluatable.ensure(condition), Evaluatable.ensure(result))]\n        return CaseWhen(self.dispatch, cases, self.default)")
+fire("factory-creates-cache-once", ["C01", "C17"], "R-OC", D,
+     "        cache: Cache\n        if self.cache is None:\n            cache = MemoryCache()\n        elif callable(self.cache):\n            cache = self.cache()\n        elif isinstance(self.cache, Cache):",
+     "        cache: Cache\n        if self.cache is None:\n            cache = MemoryCache()\n        elif callable(self.cache):\n            self.cache = self.cache()\n            cache = self.cache\n        elif isinstance(self.cache, Cache):")
+silent("factory-cache-chain-reordered", ["C01", "C02", "C17"], D,
+       "        cache: Cache\n        if self.cache is None:\n            cache = MemoryCache()\n        elif callable(self.cache):\n            cache = self.cache()\n        elif isinstance(self.cache, Cache):\n            cache = self.cache\n        else:\n            raise TypeError(f\"Invalid cache: {self.cache}\")",
+       "        cache: Cache\n        configured = self.cache\n        if configured is None:\n            cache = MemoryCache()\n        elif callable(configured):\n            cache = configured()\n        elif isinstance(configured, Cache):\n            cache = configured\n        else:\n            raise TypeError(f\"Invalid cache: {configured}\")")
+fire("computation-resolves-options-first", ["C04", "C08", "C10"], "R-OF", CP,
+     "        value = self.evaluatable.evaluate(options)\n\n        if not _EFFECTS_DISABLED(options):\n            self.effect.transform(value, options)",
+     "        options = dict(options)\n        value = self.evaluatable.evaluate(options)\n\n        if not _EFFECTS_DISABLED(options):\n            self.effect.transform(value, options)")
+fire("type-handler-strict-flag", ["C03", "C04", "C13"], "R-HK", TV,
+     "def _empty_handler(request: TypeValidationRequest):\n    return",
+     "def _empty_handler(request: TypeValidationRequest):\n    if request.options.get(\"LABREA.TYPES.STRICT\") and not isinstance(request.value, request.type):\n        raise TypeError(request.value)\n    return")
+fire("type-handler-rejects", ["C04", "C13"], "R-HD", TV,
+     "def _empty_handler(request: TypeValidationRequest):\n    return",
+     "def _empty_handler(request: TypeValidationRequest):\n    if isinstance(request.type, type) and not isinstance(request.value, request.type):\n        raise TypeError(request.value)\n    return")
+silent("type-handler-explicit-none", ["C03", "C04", "C13", "C18"], TV,
+       "def _empty_handler(request: TypeValidationRequest):\n    return",
+       "def _empty_handler(request: TypeValidationRequest) -> None:\n    \"\"\"Types are documentation unless a third-party handler enforces them.\"\"\"\n    return None")
+fire("wrap-copies-dict", ["C07", "C08", "C16"], "R-UW", D,
+     "        functools.update_wrapper(_dataset, definition, updated=())",
+     "        functools.update_wrapper(_dataset, definition)")
+silent("wrap-explicit-assigned", ["C07", "C08", "C16", "C20"], D,
+       "        functools.update_wrapper(_dataset, definition, updated=())",
+       "        functools.update_wrapper(_dataset, definition, assigned=functools.WRAPPER_ASSIGNMENTS, updated=())")
+fire("implements-splits-tuples", ["C05", "C07"], "R-RG", IF,
+     "    aliases = tuple(alias) if isinstance(alias, list) else (alias,)",
+     "    aliases = tuple(alias) if isinstance(alias, (list, tuple)) else (alias,)")
+silent("implements-list-test-inverted", ["C05", "C07"], IF,
+       "    aliases = tuple(alias) if isinstance(alias, list) else (alias,)",
+       "    aliases = (alias,) if not isinstance(alias, list) else tuple(alias)")
+fire("log-handler-resolves-options", ["C01", "C16"], "R-SH", LG,
+     "    logging.getLogger(request.name).log(request.level, request.msg)\n",
+     "    logging.getLogger(request.name).log(request.level, request.msg)\n    logging.getLogger(request.name).debug(\"%r\", Option(\"LABREA\", {})(request.options))\n")
+fire("inherit-keeps-existing-entry", ["C14", "C15", "C19"], "R-TI", RT,
+     "    with lock:\n        _RUNTIMES[threading.current_thread()] = _RUNTIMES.get(parent, Runtime())",
+     "    with lock:\n        if threading.current_thread() not in _RUNTIMES:\n            _RUNTIMES[threading.current_thread()] = _RUNTIMES.get(parent, Runtime())")
+silent("inherit-thread-local-first", ["C14", "C15", "C19"], RT,
+       "    with lock:\n        _RUNTIMES[threading.current_thread()] = _RUNTIMES.get(parent, Runtime())",
+       "    with lock:\n        me = threading.current_thread()\n        inherited = _RUNTIMES.get(parent, Runtime())\n        _RUNTIMES[me] = inherited")
+fire("overloaded-keys-under-logging-disabled", ["C18", "C14"], "R-HI", OV,
+     "        return self.switch.keys(options)",
+     "        from . import logging as _logging\n        with _logging.disabled():\n            return self.switch.keys(options)")
+fire("fingerprint-prefix-test", ["C01", "C03"], "R-KB", T,
+     """        return json.dumps(
+            [{key: get_dotted_key(key, options)} for key in sorted(self.keys(options))]
+        ).encode()""",
+     """        keys = sorted(self.keys(options))
+        keys = [k for k in keys if not any(k != other and k.startswith(other) for other in keys)]
+        return json.dumps([{key: get_dotted_key(key, options)} for key in keys]).encode()""")
+fire("evaluatable-dict-deepcopies", ["C18", "C05"], "R-ON", COL,
+     "    pairs = (Iter[Union[K, V]](Value(key), val) for key, val in contents.items())",
+     "    import copy\n    contents = copy.deepcopy(contents)\n    pairs = (Iter[Union[K, V]](Value(key), val) for key, val in contents.items())")
